@@ -16,7 +16,7 @@ Lemma pins_generator :
 Proof. repeat split. Qed.
 
 Lemma pins_naming_options :
-  naming_build_consts = ["Naming"; "."; ", "; "^((?P<namespace>[a-z0-9_.]+)\.)?(?P<name>[a-z0-9_]+)";
+  naming_build_consts = ["Naming"; "."; "."; ", "; "^((?P<namespace>[a-z0-9_.]+)\.)?(?P<name>[a-z0-9_]+)";
                          "\.(?P<version>v[0-9]+(p[0-9]+)?((alpha|beta)[0-9]*)?)"; "namespace"; "namespace"; ""; "name"; "namespace";
                          "."; "name"; "version"; ""; "All protos must have the same proto package up to and including the version.";
                          " "; "_"; " "; " "; "."; "."]
@@ -27,6 +27,8 @@ Lemma pins_naming_options :
                              "Unrecognized option: `python-gapic-"; "`."]
   /\ gapic_prefix = "python-gapic-"
   /\ invalid_module_extra = ["metadata"; "request"; "retry"; "timeout"; "transport"]
+  /\ package_exprs = ["'.'.join(os.path.commonprefix([p.package.split('.') for p in req.proto_file if p.name in req.file_to_generate]))";
+                      "'.'.join(os.path.commonprefix([p.split('.') for p in sorted(proto_packages)]))"]
   /\ sanitize_consts = ["."; "-"; "."; "_"; "-"; "_"; "_"]
   /\ sanitize_tests = ["'.' in name or '-' in name";
                        "name in invalid_module_names or to_snake_case(name) in invalid_module_names or full_path in visited_names";
@@ -1290,7 +1292,7 @@ Qed.
 
 (* ------------------------------------------------------------------ dependency files *)
 Definition target_package (files : list pfile) (to_generate : list string) : string :=
-  rstrip_dots (commonprefix (map pf_package (filter (fun f => mem_str (pf_name f) to_generate) files))).
+  common_segments (map pf_package (filter (fun f => mem_str (pf_name f) to_generate) files)).
 (* in_pkg is membership in the package tree, not a textual prefix *)
 Lemma in_pkg_spec package p : in_pkg package p = true ->
   package = "" \/ p = package \/ exists rest, p = package ++ "." ++ rest.
